@@ -24,7 +24,10 @@ pub(crate) fn parse_source_and_includes<P: AsRef<Path>>(
     search_path_list: Option<&[P]>,
 ) -> (Option<ParsedSource>, Vec<SourceFile>) {
     let parsed_source = synast::SourceFile::parse_check_lex(source_string);
-    let parsed_included_source = if parsed_source.have_parse() {
+    // Included files are parsed only if the source itself parsed without errors
+    // (a malformed `include` statement has no file path to follow).
+    let parse_ok = parsed_source.have_parse() && parsed_source.errors().is_empty();
+    let parsed_included_source = if parse_ok {
         parse_included_files(&parsed_source, search_path_list)
     } else {
         Vec::<SourceFile>::new()
